@@ -58,23 +58,40 @@ Theorem c14_destroy_progress : forall ha ops,
 Proof. exact aggr_dying_accounting. Qed.
 Print Assumptions c14_destroy_progress.
 
-(* per_source_order: for any number of sources (scripts without YieldEcho), any access sequence and any completion
-   schedule, the values delivered from source j - in delivery order - are a prefix of the values source j's script
-   yields (nothing skipped, repeated, reordered or invented within a source) *)
-Theorem c14_per_source_order : forall ha scs ops, Forall (fun sc => has_echo sc = false) scs ->
-  forall j, j < length scs ->
-  exists rest, dj (deliv ha (build_state scs) ops) j ++ rest = src_values (nth j scs []).
+(* per_source_order: for any number of sources, any scripts (with or without arguments / YieldEcho), any access sequence
+   and any completion schedule, the values delivered from source j - in delivery order - are a prefix of the value
+   sequence source j's script yields when run with the arguments routed to it so far (`Sof`, defined on the script and
+   the received arguments alone; `recvd` = the first argument to every source, each later one to the source returned
+   last): nothing skipped, repeated, reordered or invented within a source *)
+Theorem c14_per_source_order : forall ha scs ops j, j < length scs -> forall fut,
+  exists rest, dj (deliv ha (build_state scs) ops) j ++ rest = Sof scs (recvd ha (build_state scs) ops) j fut.
 Proof. exact aggr_per_source_order. Qed.
 Print Assumptions c14_per_source_order.
 
 (* union: once the aggregate has ended, every source's complete value sequence has been delivered, each value exactly
    once and in the source's order *)
-Theorem c14_union : forall ha scs ops, Forall (fun sc => has_echo sc = false) scs ->
+Theorem c14_union : forall ha scs ops,
   ast (snd (run_from ha (build_state scs) ops)) = AFinal ->
-  forall j, j < length scs ->
-  dj (deliv ha (build_state scs) ops) j = src_values (nth j scs []).
+  forall j, j < length scs -> forall fut,
+  dj (deliv ha (build_state scs) ops) j = Sof scs (recvd ha (build_state scs) ops) j fut.
 Proof. exact aggr_union. Qed.
 Print Assumptions c14_union.
+
+(* for scripts that do not echo their argument the sequence is the script's value list, whatever arguments arrive *)
+Theorem c14_values_without_echo : forall scs R j fut,
+  has_echo (nth j scs []) = false -> Sof scs R j fut = src_values (nth j scs []).
+Proof. exact Sof_noecho. Qed.
+Print Assumptions c14_values_without_echo.
+
+(* ends_iff_all_ended, if-direction: an accepted access after which every source is finished answers with the end of
+   the sequence (End or the remembered exception) and leaves the aggregate finished; with c14_end_means_all_ended this
+   is the "iff" *)
+Theorem c14_end_if_all_ended : forall ha scs ops y a,
+  let g := snd (run_from ha (build_state scs) ops) in
+  let '(g1, o) := step ha g (OAccess y a) in
+  o_st o = 0%Z -> all_final (srcs g1) -> ast g1 = AFinal /\ terminal_res (o_res o).
+Proof. exact aggr_end_if_all_ended. Qed.
+Print Assumptions c14_end_if_all_ended.
 
 (* the delivered values are exactly the value answers the consumer observes, in the same order *)
 Theorem c14_delivered_is_observed : forall ha ops g,
